@@ -161,7 +161,7 @@ def work(ctx, idx):
     wr = WorkResult()
     cfg = TIERS[ctx.tier]
     rng = ctx.rng('scn', idx)
-    sc = scenario.gen_scenario(rng, want={'flavors': ['nr', 'nr', 'r', 'r', 'c99', 'cxx']})
+    sc = scenario.gen_scenario(rng, want={'flavors': ['nr', 'nr', 'r', 'r', 'c99', 'c99', 'cxx', 'cxx']})
     b = ctx.build(sc)
     cxx = sc.flavor == 'cxx'       # the C++ lexer has no stdio input path: allocation failures only
     sc_s = copy.copy(sc)
